@@ -35,6 +35,15 @@ Program counter = "what `run()` does next".  The lock regions and callbacks mode
   completeStep(X)                    complLock X    : lock{ currentStage := X; state := finished }, complCb X : OnStepComplete
   tail         the remaining OnStepStageFailure callbacks and the deferred closes, then `done`
 
+Since e0ccfb1 the detector no longer looks at the raw `r.state`: `State()` answers `running` when the input of the
+current stage has been provided, and `countStates` compares `CurrentStage()` with the stage the step reported last
+(`l.reportedStages`, written when the loop PROCESSES an `OnStageChange`) and looks at `l.completedSteps` (written when it
+processes `OnStepComplete`).  The model therefore splits every `OnStageChange` / `OnStepComplete` into the moment the
+step is about to call the handler (`dCb`, `eCb`, `transCb X`, `complCb X`: report in flight), the processing by the loop
+under `l.lock` (action `deliver`, which updates the loop-side record `reportedStage` / `completed` and, for a report with
+a previous stage, runs `checkForDeadlocks`) and the return into `run()` (`dCbRet`, `eCbRet`, `transCbRet X`,
+`complCbRet X`).  `OnStepStageFailure` calls (`eGotTrue`, `failedCb X`, `tailFail`) touch neither record nor detector.
+
 Core Lean only.
 -/
 import Arca.Gen.Consts
@@ -52,18 +61,21 @@ inductive Stage where
   deriving DecidableEq, Repr
 
 inductive Pc where
-  | dLock | dCb | dTry | dGotEarly | dSetWaiting | dWait | dGotLate | dDeploying
+  | dLock | dCb | dCbRet | dTry | dGotEarly | dSetWaiting | dWait | dGotLate | dDeploying
   | spCheck
-  | eLock | eCb | eWait | eGotTrue
+  | eLock | eCb | eCbRet | eWait | eGotTrue
   | sTry | sCheck | sWait | sGotLate | sSchema
   | rWait
   | transLock (tgt : Stage) (st : RState)
   | transCb (tgt : Stage)
+  | transCbRet (tgt : Stage)
   | failedLock (tgt : Stage)
   | failedCb (tgt : Stage)
   | complLock (tgt : Stage)
   | complCb (tgt : Stage)
-  | tail
+  | complCbRet (tgt : Stage)
+  | tailFail          -- the OnStepStageFailure calls of markStageFailures / markNotClosable after the completion
+  | tailClose         -- the deferred functions: container close, r.cancel(), r.wg.Done()
   | done
   deriving DecidableEq, Repr
 
@@ -80,6 +92,9 @@ structure St where
   runOcc : Bool           -- an item sits in r.runInput      (capacity 1)
   early : Bool            -- startStage's local `inputReceivedEarly`
   ctxDone : Bool          -- r.ctx cancelled
+  -- the loop side (workflow.go, under l.lock)
+  reportedStage : Option Stage   -- l.reportedStages[stepID]
+  completed : Bool               -- stepID ∈ l.completedSteps
   deriving DecidableEq, Repr
 
 /-- the state `Start` returns in -/
@@ -95,7 +110,9 @@ def init : St :=
     enabledVal := false
     runOcc := false
     early := false
-    ctxDone := false }
+    ctxDone := false
+    reportedStage := none
+    completed := false }
 
 inductive Act where
   -- the engine (any goroutine): ProvideStageInput / Close / stop condition
@@ -103,8 +120,12 @@ inductive Act where
   | provideEnabling (enabled : Bool)
   | provideStarting
   | cancel
-  -- run(): a move that needs nothing from anybody (lock region, callback, first non-blocking receive)
+  -- run(): a move that needs nothing from anybody (lock region, return from a handler, first non-blocking receive)
   | internal
+  -- the loop processes the pending OnStageChange / OnStepComplete of this step (onStageComplete under l.lock)
+  | deliver
+  -- the loop processes a pending OnStepStageFailure of this step
+  | deliverFailure
   -- run(): the two branches of a blocking select
   | recv
   | ctx
@@ -140,27 +161,38 @@ def step (s : St) : Act → Option St
   | .internal =>
     match s.pc with
     | .dLock => some { s with pc := .dCb, state := .running }
-    | .dCb => some { s with pc := .dTry }
+    | .dCbRet => some { s with pc := .dTry }
     | .dTry => if s.deployOcc then some { s with pc := .dGotEarly, deployOcc := false } else some { s with pc := .dSetWaiting }
     | .dGotEarly => some { s with pc := .dDeploying, state := .running }
     | .dSetWaiting => some { s with pc := .dWait, state := .waiting }
     | .dGotLate => some { s with pc := .dDeploying, state := .running }
     | .spCheck => if s.ctxDone then some { s with pc := .transLock .closed .running } else some { s with pc := .eLock }
     | .eLock => some { s with pc := .eCb, stage := .enabling, state := .waiting }
-    | .eCb => some { s with pc := .eWait }
-    | .eGotTrue => some { s with pc := .sTry }
+    | .eCbRet => some { s with pc := .eWait }
     | .sTry =>
       if s.runOcc then some { s with pc := .transLock .starting .running, runOcc := false, early := true }
       else some { s with pc := .transLock .starting .waiting, early := false }
     | .sCheck => some { s with pc := .sWait }
     | .sGotLate => some { s with pc := .sSchema, state := .running }
     | .transLock tgt st => some { s with pc := .transCb tgt, stage := tgt, state := st }
-    | .transCb tgt => (afterTrans s tgt).map (fun p => { s with pc := p })
+    | .transCbRet tgt => (afterTrans s tgt).map (fun p => { s with pc := p })
     | .failedLock tgt => some { s with pc := .failedCb tgt, stage := tgt, state := .running }
-    | .failedCb tgt => some { s with pc := .complLock tgt }
     | .complLock tgt => some { s with pc := .complCb tgt, stage := tgt, state := .finished }
-    | .complCb _ => some { s with pc := .tail }
-    | .tail => some { s with pc := .done }
+    | .complCbRet tgt => some { s with pc := (if tgt = .outputs then .tailClose else .tailFail) }
+    | .tailClose => some { s with pc := .done }
+    | _ => none
+  | .deliver =>
+    match s.pc with
+    | .dCb => some { s with pc := .dCbRet, reportedStage := some .deploy }
+    | .eCb => some { s with pc := .eCbRet, reportedStage := some .enabling }
+    | .transCb tgt => if (afterTrans s tgt).isSome then some { s with pc := .transCbRet tgt, reportedStage := some tgt } else none
+    | .complCb tgt => some { s with pc := .complCbRet tgt, completed := true }
+    | _ => none
+  | .deliverFailure =>
+    match s.pc with
+    | .eGotTrue => some { s with pc := .sTry }
+    | .failedCb tgt => some { s with pc := .complLock tgt }
+    | .tailFail => some { s with pc := .tailClose }
     | _ => none
   | .recv =>
     match s.pc with
@@ -183,12 +215,87 @@ def step (s : St) : Act → Option St
 /-- everything by which the step moves on WITHOUT a further call of the engine: `run()`'s own moves and the answers of
     the deployer / plugin it is waiting for -/
 def progressActs : List Act :=
-  [.internal, .recv, .ctx, .deployOk, .deployFail, .startOk, .startFail, .resultOk, .resultErr]
+  [.internal, .deliver, .deliverFailure, .recv, .ctx, .deployOk, .deployFail, .startOk, .startFail, .resultOk, .resultErr]
 
 /-- The step cannot make progress without a further action of the engine: none of the progress moves is possible.
-    (No input sits unconsumed in a channel it is selecting on, its context is not cancelled, no callback is pending,
+    (No input sits unconsumed in a channel it is selecting on, its context is not cancelled, no report is pending,
     `run()` is not between two of its own actions, and it is not waiting for the deployer or the plugin.) -/
 def Quiescent (s : St) : Bool := progressActs.all (fun a => (step s a).isNone)
+
+/-! ## what the detector sees since e0ccfb1 -/
+
+/-- `currentStageInputAvailable()` -/
+def currentStageInputAvailable (s : St) : Bool :=
+  match s.stage with
+  | .deploy => s.deployAvail
+  | .enabling => s.enabledAvail
+  | .starting => s.runAvail
+  | _ => false
+
+/-- what `State()` returns -/
+def reportedState (s : St) : RState :=
+  if s.state = .waiting ∧ currentStageInputAvailable s = true then .running else s.state
+
+/-- how `countStates` counts the step (`State()`, then `CurrentStage()` against `l.reportedStages`, `l.completedSteps`;
+    the two reads of the step are taken as one snapshot: between them only `run()` can move — inputs are provided under
+    `l.lock`, which the poller holds — and a stage change in between only makes the comparison fail towards `running`) -/
+def countsAs (s : St) : RState :=
+  match reportedState s with
+  | .waiting => if s.reportedStage = some s.stage then .waiting else .running
+  | .finished => if s.completed then .finished else .running
+  | x => x
+
+/-- the refinement is at work: the raw state says `waiting_for_input` / `finished`, the detector counts `running` -/
+def Refined (s : St) : Bool :=
+  (s.state == .waiting || s.state == .finished) && countsAs s == .running
+
+/-- Nothing but silent local moves is left before `run()` parks or ends: it returns from the handler in which the
+    check runs (or has passed the last report) and neither calls the handler again nor finds an input or a cancelled
+    context.  (`Quiescent` = parked already.) -/
+def Settled (s : St) : Bool :=
+  Quiescent s ||
+  (match s.pc with
+   | .eCbRet => !s.enabledOcc && !s.ctxDone
+   | .transCbRet .starting => !s.early && !s.runOcc && !s.ctxDone
+   | .sCheck => !s.runOcc && !s.ctxDone
+   | .complCbRet .outputs => true
+   | .tailClose => true
+   | _ => false)
+
+/-- the window that is left after e0ccfb1: the completion has been processed, the `OnStepStageFailure` notifications
+    that follow it (`markStageFailures`, `markNotClosable`: every ending except the successful one) have not -/
+def inFailureTail (s : St) : Bool :=
+  match s.pc with
+  | .complCbRet tgt => tgt != .outputs
+  | .tailFail => true
+  | _ => false
+
+/-- a report whose processing runs `checkForDeadlocks` (`previousStage != nil`) is pending -/
+def checkingReportPending (s : St) : Bool :=
+  match s.pc with
+  | .eCb => true
+  | .transCb _ => true
+  | .complCb _ => true
+  | _ => false
+
+/-- On every path of its own, `run()` will have such a report processed before it parks or ends. -/
+def owesCheck (s : St) : Bool :=
+  match s.pc with
+  | .dLock | .dCb | .dCbRet | .dTry | .dSetWaiting | .dWait => s.deployOcc || s.ctxDone
+  | .eCbRet | .eWait => s.enabledOcc || s.ctxDone
+  | .transCbRet .starting => s.early || s.runOcc || s.ctxDone
+  | .sCheck | .sWait => s.runOcc || s.ctxDone
+  | .complCbRet _ | .tailFail | .tailClose | .done => false
+  | _ => true
+
+/-- does executing `acts` from `s` contain the processing of a checking report after which the refinement is no longer
+    at work (the check then sees the step as it is) -/
+def hasFaithfulCheck : St → List Act → Bool
+  | _, [] => false
+  | s, a :: rest =>
+    match step s a with
+    | some s' => (a == .deliver && checkingReportPending s && !Refined s') || hasFaithfulCheck s' rest
+    | none => false
 
 inductive Reachable : St → Prop where
   | init : Reachable init
@@ -213,7 +320,9 @@ theorem execute_reachable {s : St} (hs : Reachable s) : ∀ (acts : List Act) (t
       exact ih (Reachable.step a hs hstep) t h
     · cases h
 
-/-! ## the windows in which `State()` says `waiting_for_input` / `finished` although the step is still moving -/
+/-! ## the windows in which the RAW `r.state` is `waiting_for_input` / `finished` although the step is still moving
+
+These are the windows of finding F10a; they are the reason for the refinement above. -/
 
 /-- (0) deployStage: the input arrived between the non-blocking `select` (default branch taken) and the lock region
     that sets `waiting_for_input`; `provideDeployInput` saw `running` and did not flip the state.  The item is in the
@@ -231,6 +340,7 @@ def inDeployRace (s : St) : Bool :=
 def inEnableWindow (s : St) : Bool :=
   match s.pc with
   | .eCb => true
+  | .eCbRet => true
   | .eWait => s.enabledOcc
   | .eGotTrue => true
   | .sTry => true
@@ -243,6 +353,7 @@ def inEnableWindow (s : St) : Bool :=
 def inStartWindow (s : St) : Bool :=
   match s.pc with
   | .transCb .starting => true
+  | .transCbRet .starting => true
   | .sCheck => true
   | .sWait => s.runOcc
   | .sGotLate => true
@@ -253,7 +364,9 @@ def inStartWindow (s : St) : Bool :=
 def inCompletionWindow (s : St) : Bool :=
   match s.pc with
   | .complCb _ => true
-  | .tail => true
+  | .complCbRet _ => true
+  | .tailFail => true
+  | .tailClose => true
   | _ => false
 
 /-- the step is being closed: parked with a cancelled context, or on its way into `closedEarly` / `startFailed` -/
